@@ -178,6 +178,42 @@ func sprintfFormat(p *Pkg, fn *ast.FuncDecl) string {
 	return res
 }
 
+// ifInitCallFatal reports whether fn has `if err := <..>.call(); err != nil { fatal(err) }`.
+func ifInitCallFatal(fn *ast.FuncDecl, call string, fatal string) bool {
+	has := func(n ast.Node, name string) bool {
+		found := false
+		if n == nil {
+			return false
+		}
+		ast.Inspect(n, func(x ast.Node) bool {
+			if ce, ok := x.(*ast.CallExpr); ok {
+				switch f := ce.Fun.(type) {
+				case *ast.SelectorExpr:
+					if f.Sel.Name == name {
+						found = true
+					}
+				case *ast.Ident:
+					if f.Name == name {
+						found = true
+					}
+				}
+			}
+			return true
+		})
+		return found
+	}
+	res := false
+	ast.Inspect(fn.Body, func(n ast.Node) bool {
+		if is, ok := n.(*ast.IfStmt); ok && is.Init != nil {
+			if has(is.Init, call) && has(is.Body, fatal) {
+				res = true
+			}
+		}
+		return true
+	})
+	return res
+}
+
 func c16BoolFact(name string, f func() bool) Fact {
 	return Fact{Name: name, Gen: func() string { return defBool(name, f()) }}
 }
@@ -215,6 +251,22 @@ func init() {
 		NFact("concurrent_save_pos_dosave", func() *big.Int {
 			p := loadPkg("internal/rsm")
 			return callRank(p, p.Func("StateMachine", "concurrentSave"), "doSave", "sync", "doSave")
+		}),
+		// NodeHost.startShard: the shard's snapshotter runs processOrphans, a failure is fatal,
+		// and this happens before the node is created (newNode) and started
+		c16BoolFact("startshard_orphans_fatal", func() bool {
+			p := root()
+			return ifInitCallFatal(p.Func("NodeHost", "startShard"), "processOrphans", "panicNow")
+		}),
+		c16BoolFact("startshard_orphans_before_newnode", func() (b bool) {
+			defer func() {
+				if recover() != nil {
+					b = false // one of the two calls is missing
+				}
+			}()
+			p := root()
+			fn := p.Func("NodeHost", "startShard")
+			return callLine(p, fn, "processOrphans").Cmp(callLine(p, fn, "newNode")) < 0
 		}),
 		// the directory name codec: getDirName = "snapshot-%016X", getTempDirName = "%s-%d.%s",
 		// and the repetition bounds of the three expressions that recognise the names
